@@ -40,3 +40,47 @@ const("rs_encrypt_records_shipped", "ant-node/Cargo.toml", _shipped_encrypts, ty
 # the two places that consult the feature in record_store.rs
 const("rs_encrypt_cfg_sites", "ant-networking/src/record_store.rs",
       lambda src: len(re.findall(r'if !cfg!\(feature = "encrypt-records"\)', src)))
+
+
+def _version_written_only_on_mismatch(src):
+    """Structural fact about driver.rs check_and_wipe_storage_dir_if_necessary: every statement that
+    modifies the version file after it has been read (open with truncate, write_all) and the wipe of the
+    record store sit INSIDE the `if cur_version_str != prev_version_str { ... }` block."""
+    m = re.search(r"fn check_and_wipe_storage_dir_if_necessary\s*\(", src)
+    if not m:
+        raise ValueError("check_and_wipe_storage_dir_if_necessary not found")
+
+    def block(start):
+        i = src.index("{", start)
+        depth, j = 0, i
+        while True:
+            if src[j] == "{":
+                depth += 1
+            elif src[j] == "}":
+                depth -= 1
+                if depth == 0:
+                    return i, j
+            j += 1
+    b0, b1 = block(src.index(")", m.end()))
+    body = src[b0:b1 + 1]
+    ms = list(re.finditer(r"if\s+cur_version_str\s*!=\s*prev_version_str\s*\{", body))
+    if len(ms) != 1:
+        raise ValueError("mismatch branch not found exactly once")
+    i0 = ms[0].end() - 1
+    depth, j = 0, i0
+    while True:
+        if body[j] == "{":
+            depth += 1
+        elif body[j] == "}":
+            depth -= 1
+            if depth == 0:
+                break
+        j += 1
+    inside = (i0, j)
+    writes = [w.start() for w in re.finditer(r"truncate\(true\)|write_all\(|remove_dir_all\(|fs::write\(|remove_file\(", body)]
+    if not writes:
+        raise ValueError("no write to the version file found")
+    return all(inside[0] < w < inside[1] for w in writes)
+
+
+const("rs_version_written_only_on_mismatch", "ant-networking/src/driver.rs", _version_written_only_on_mismatch, ty="bool")
